@@ -29,7 +29,8 @@ def check_find(rep, F, cfg):
     params = [p["pat"] for p in f.thir["params"]]
     self_id, key_id = params[0]["id"], params[1]["id"]
     lets = [s for s in body.get("stmts", []) if s["k"] == "Let"]
-    vlet = [s for s in lets if s["pat"].get("k") == "Bind" and s["pat"]["name"] == "v"]
+    # the state variable is the one the function returns
+    vlet = [s for s in lets if s["pat"].get("k") == "Bind" and s["pat"]["id"] == q.var_id(body.get("expr"))]
     okv = len(vlet) == 1 and facts.adt_is(peel(vlet[0]["init"]), "Option", "None")
     rep.check(okv, "T-FIND", "T-FIND/state-init" + tag, site, "state v starts as None (at root)", show(vlet[0]["init"]) if vlet else "-")
     vid = vlet[0]["pat"]["id"] if vlet else None
@@ -45,7 +46,7 @@ def check_find(rep, F, cfg):
     if top.get("k") != "If":
         rep.lost("T-FIND", "T-FIND/branch" + tag, "loop body is if <indexed> {..} else {..}", show(top)[:80])
         return
-    cond = show(top["cond"])
+    cond = show(top["cond"], ren={loop["pat"].get("name"): "k"})
     rep.check(cond == "(<impl str>::ends_with(k, ']') && <impl str>::contains(k, '['))", "T-FIND", "T-FIND/index-test" + tag, top["sp"], "a segment is indexed iff it ends with ']' and contains '['", cond)
     idx_b, plain_b = top["then"], top["else"]
 
@@ -67,14 +68,12 @@ def check_find(rep, F, cfg):
             rep.lost("T-FIND", "T-FIND/%s/state-match%s" % (label, tag), "one match on the state v", str(len(ms)))
             return
         m = ms[0]
-        rows = {}
-        for a in m["arms"]:
-            rows[pat_str(a["pat"])] = a
+        got = [pat_str(a["pat"]) for a in m["arms"]]
         want = ["Option::Some(Value::Object($value))", "Option::Some(_)", "Option::None"]
-        rep.check(list(rows) == want, "T-FIND", "T-FIND/%s/arms%s" % (label, tag), m["sp"], "state arms: Some(Object) / Some(other) / None, in that order", str(list(rows)))
-        if list(rows) != want:
+        rep.check(got == want, "T-FIND", "T-FIND/%s/arms%s" % (label, tag), m["sp"], "state arms: Some(Object) / Some(other) / None, in that order", str(got))
+        if got != want:
             return
-        a_obj, a_other, a_root = rows[want[0]], rows[want[1]], rows[want[2]]
+        a_obj, a_other, a_root = m["arms"]
         ret_none = lambda n: unblock(n).get("k") == "Return" and facts.adt_is(peel(unblock(n)["value"]), "Option", "None")
         rep.check(ret_none(a_other["body"]), "T-FIND", "T-FIND/%s/wrong-shape%s" % (label, tag), a_other["sp"], "a non-object mid-path value => None", show(a_other["body"])[:60])
         val_id = strip_ref(subpat(subpat(a_obj["pat"], 0), 0)).get("id")
@@ -174,13 +173,13 @@ def check_nested(rep, F):
     ab = aa["body"]
     tail = ab.get("expr")
     loops = [s["e"] for s in ab.get("stmts", []) if s["k"] == "Expr" and s["e"].get("k") == "For"]
-    okg = bool(loops) and q.is_sr(tail, "False") and show(loops[-1]) == "for $v in Array::iter(a) {if let Option::Some($x) = <'_>::as_object(v) {if PartialEq::eq(solver::solve_expression(e, identifiers, x), SolverResult::True) {return SolverResult::True}}}"
-    rep.check(okg, "T-NESTED", "T-NESTED/array-exists", aa["sp"], "array: True iff some element that is an object satisfies the block, else False", show(loops[-1])[:160] if loops else "-")
+    okg = bool(loops) and q.is_sr(tail, "False") and q.loop_over(loops[-1])[0] == strip_ref(subpat(aa["pat"], 0)).get("id")
+    rep.check(okg, "T-NESTED", "T-NESTED/array-exists", aa["sp"], "array: the generic case is a loop over the array's own elements ending in False (its truth table is NESTED-MODEL/plain)", show(loops[-1])[:160] if loops else "-")
 
     # NESTED-MODEL: evaluate the array arm as a model.  members k in 1..3, elements m in 0..2, oracle table (member, element) -> {T,F,M}
     arr_id = strip_ref(subpat(aa["pat"], 0)).get("id")
 
-    def run_model(e_shape, k, m, table, cols=None):
+    def run_model(e_shape, k, m, table, cols=None, nonobj=()):
         elems = [("elem", j) for j in range(m)]
 
         def h_iter(model, n, env):
@@ -188,6 +187,8 @@ def check_nested(rep, F):
 
         def h_as_object(model, n, env):
             v = model.ev(n["args"][0], env)
+            if isinstance(v, tuple) and v[0] == "elem" and v[1] in nonobj:
+                return None
             return ("some", v)
 
         def h_solve(model, n, env):
@@ -246,6 +247,15 @@ def check_nested(rep, F):
                             bad.append("k=%d m=%d %s -> %s" % (k, m, "".join(vals), got))
                         if form == "plain" and not exp_true and got != "F":
                             bad.append("k=%d m=%d %s -> %s (plain form must be False)" % (k, m, "".join(vals), got))
+                        if form == "plain":
+                            # elements that are not objects are skipped, whatever the block would say about them
+                            for r in range(1, m + 1):
+                                for no in itertools.combinations(range(m), r):
+                                    got2 = run_model(shape, k, m, table, nonobj=no)
+                                    nrows += 1
+                                    want2 = any(table[(0, j)] == "T" for j in range(m) if j not in no)
+                                    if (got2 == "T") != want2 or (not want2 and got2 != "F"):
+                                        bad.append("k=%d m=%d %s non-objects=%s -> %s" % (k, m, "".join(vals), no, got2))
         except Unrecognised as e:
             rep.lost("NESTED-MODEL", "NESTED-MODEL/" + form, "array loop inside the model language", str(e)[:200])
             continue
